@@ -2071,6 +2071,20 @@ impl<T: PPGEvaluatorStrategy> PPGEvaluator<T> {
     }
 
     fn propagate_job_required(dag: &mut GraphType, jobs: &mut [NodeInfo], node_idx: NodeIndex) {
+        let mut visited = HashSet::new();
+        Self::propagate_job_required_inner(dag, jobs, node_idx, &mut visited);
+    }
+
+    fn propagate_job_required_inner(
+        dag: &mut GraphType,
+        jobs: &mut [NodeInfo],
+        node_idx: NodeIndex,
+        visited: &mut HashSet<NodeIndex>,
+    ) {
+        // visit every job once, not once per path leading to it
+        if !visited.insert(node_idx) {
+            return;
+        }
         let upstreams: Vec<_> = dag
             .neighbors_directed(node_idx, Direction::Incoming)
             .collect();
@@ -2080,7 +2094,9 @@ impl<T: PPGEvaluatorStrategy> PPGEvaluator<T> {
                 .required = Required::Yes;
             match jobs[upstream_idx].state {
                 JobState::Always(_) | JobState::Output(_) => {}
-                JobState::Ephemeral(_) => Self::propagate_job_required(dag, jobs, upstream_idx),
+                JobState::Ephemeral(_) => {
+                    Self::propagate_job_required_inner(dag, jobs, upstream_idx, visited)
+                }
             }
         }
     }
